@@ -1,0 +1,13 @@
+//go:build !verif
+
+package iobroker
+
+/*
+ * verif_off.go
+ * No-op verification hook, used unless built with -tags verif
+ */
+
+import "context"
+
+// verifPoint does nothing unless built with -tags verif.
+func verifPoint(context.Context, string, sDirection, string) {}
